@@ -167,6 +167,13 @@ func (e *EndpointExporter) setCommonAttributes(
 		param = param.AsOptional()
 	}
 	if param.Type == object {
+		// path and query parameters are created without a schema
+		if param.Schema == nil {
+			param.Schema = &spec.Schema{}
+		}
+		if param.Schema.ExtraProps == nil {
+			param.Schema.ExtraProps = map[string]interface{}{}
+		}
 		param.Schema.ExtraProps["$ref"] = "#/definitions/" + param.Format
 	}
 }
